@@ -307,8 +307,11 @@ class Workspace(AbstractContextManager):
         entity_kwargs.update(
             (k, kwargs[k]) for k in entity_kwargs.keys() & kwargs.keys()
         )
+        # an attribute that the entity has as well (name, description, ...) is meant for
+        # the entity: the type keeps its own
         entity_type_kwargs.update(
-            (k, kwargs[k]) for k in entity_type_kwargs.keys() & kwargs.keys()
+            (k, kwargs[k])
+            for k in (entity_type_kwargs.keys() & kwargs.keys()) - entity_kwargs.keys()
         )
 
         if not isinstance(parent, (ObjectBase, Group, Workspace)):
